@@ -187,4 +187,26 @@ func scenC13(c *ctx) {
 		c.rec.Emit(doDecodeSecret(fmt.Sprintf("C13/decode/%d", i), damaged))
 		c.ocraC13(i, key, secret)
 	}
+	// both ends of C03's counter domain (c < s, and c + s = 2^64-1 exactly) with every admitted window: accepting
+	// and rejecting verdicts there (a window computed as [first, end) wraps to an empty loop at the top end and
+	// falls through with no error)
+	for s := uint64(0); s <= 10; s++ {
+		key := c.someKey()
+		secret := b32(key)
+		d := []uint8{6, 7, 8, 9, 10}[c.rng.Intn(5)]
+		a := uint8(c.rng.Intn(3))
+		top := ^uint64(0) - s
+		for _, ctr := range []uint64{top, top - 1, 0, s / 2, s, s + 1} {
+			dists := []int{0, int(s)}
+			if ctr >= s {
+				dists = append(dists, -int(s))
+			}
+			for _, dist := range dists {
+				c.rec.Emit(c.hotpValidateCase(fmt.Sprintf("C13end%d", s), key, secret, ctr, P{Digits: d, Alg: a, Skew: s}, dist, "exact"))
+			}
+			for _, ed := range []string{"flip", "trunc1", "append0", "empty", "junk"} {
+				c.rec.Emit(c.hotpValidateCase(fmt.Sprintf("C13end%d", s), key, secret, ctr, P{Digits: d, Alg: a, Skew: s}, 0, ed))
+			}
+		}
+	}
 }
